@@ -107,6 +107,9 @@ let handle (cmd : ostring) (args : ostring list) : ostring =
   | "frames", [p] -> show_result (fun fs -> String.concat ";" (List.map show_frame fs)) (x_parse_frames (bytes_of_hex p))
   | "varint", [b] -> show_result hex_of_z (x_varint (bytes_of_hex b))
   | "varintlen", [b] -> show_result hex_of_z (x_varint_len (bytes_of_hex b))
+  | "cksum", [off; v6; src; dst; proto; sg; fld] ->
+      show_result string_of_bool (x_cksum (z_of_hex off) (v6 = "1") (bytes_of_hex src) (bytes_of_hex dst) (z_of_hex proto) (bytes_of_hex sg) (z_of_hex fld))
+  | "occ", [b] -> show_result hex_of_bytes_strict (x_occ (bytes_of_hex b))
   | "ping", _ -> "pong"
   | _ -> "ERR unknown command " ^ cmd
 
